@@ -38,8 +38,9 @@ def BOUND(tier):
 def RULE(tier):
     return ("real tcp Client/ClientTls <-> Server/ServerTls over FakeNet, buffer size 4 and 8096, %d tx/service scripts with payloads "
             "of 0, 1, 3 and bs+1 bytes in both directions; every execution with <= %d non-default kernel answers (send accepts "
-            "0/1/n-1 bytes, recv hands out 1 byte, connect EINPROGRESS, TLS want-read/want-write at handshake and - each of the two - at any send and any recv). The client "
-            "uses application-supplied rx/tx buffers; wire logs are attached with (rxed, txed) rotating over (T,T), (F,T), (T,F). After "
+            "0/1/n-1 bytes, recv hands out 1 byte, connect EINPROGRESS, TLS want-read/want-write at handshake and - each of the two - at any send and any recv). "
+            "Scripts also cover a reconnectable client whose server listens only later (socket re-opened with bytes waiting), either side half-closing its receive direction "
+            "and transmitting on, and server-side connection timers that activity refreshes or not. The client uses application-supplied rx/tx buffers; wire logs are attached with (rxed, txed) rotating over (T,T), (F,T), (T,F). After "
             "every service round: bytes received are a prefix of bytes transmitted (both directions) and each wire log equals the "
             "bytes FakeNet accepted/delivered; after settling: equality and empty tx buffers." % (len(SCRIPTS), BOUND(tier)))
 
